@@ -65,6 +65,11 @@ def _net(draw):
 def _case(draw, kinds=("elasticities", "response")):
     kind = draw(st.sampled_from(list(kinds)))
     net = draw(_net())
+    if kind == "elasticities" and draw(st.integers(0, 2)) == 0:
+        # inhibitory kinetic orders: parameters with a negative value (no steady state is needed for elasticities)
+        for r in net["reactions"]:
+            if r["sub"] is not None and draw(st.booleans()):
+                r["order"] = draw(st.sampled_from([-0.5, -1.0, -2.0]))
     pn = mm.param_names(net)
     case = {
         "kind": kind,
@@ -106,6 +111,8 @@ def examine(case: dict, ctx) -> Outcome:
     m = mm.build(net)
     key = [case["kind"], net["n"], [(r["name"], r["order"]) for r in net["reactions"]], norm, d, case["variables"] is not None, case["to_scan"], case.get("parallel")]
     out.classes = [f"kind:{case['kind']}", "normalized" if norm else "unscaled", f"d={d:g}", "variables_supplied" if case["variables"] else "default_state"]
+    if any(r["sub"] is not None and r["order"] < 0 for r in net["reactions"]):
+        out.classes.append("negative_parameter_value")
 
     if case["kind"] == "elasticities":
         x = dict(zip(vn, (case["variables"] or net["x0"])[: net["n"]]))
@@ -230,7 +237,7 @@ def examine(case: dict, ctx) -> Outcome:
 
 def floors(ctx) -> list[str]:
     c = []
-    for k in ["kind:elasticities", "kind:response", "normalized", "unscaled", "parallel", "variables_supplied"]:
+    for k in ["kind:elasticities", "kind:response", "normalized", "unscaled", "parallel", "variables_supplied", "negative_parameter_value"]:
         if ctx.classes.get(k, 0) < 3:
             c.append(f"class {k} only {ctx.classes.get(k, 0)}")
     return c
